@@ -187,7 +187,7 @@ def coqc_file(path, timeout=900):
     return p.returncode, p.stdout, p.stderr
 
 
-_PAIR = re.compile(r'\("((?:[^"]|"")*)",\s*"((?:[^"]|"")*)"\)')
+_PAIR = re.compile(r'\(\s*"((?:[^"]|"")*)"\s*,\s*"((?:[^"]|"")*)"\s*\)')
 
 
 def parse_pairs(out):
@@ -216,11 +216,15 @@ def eval_shards(name, header, items, defn, nshards=None, timeout=900):
         paths.append(path)
     pairs, errors = [], []
     with concurrent.futures.ThreadPoolExecutor(max_workers=NCPU) as ex:
-        for path, (rc, out, err) in zip(paths, ex.map(lambda p: coqc_file(p, timeout), paths)):
+        for k, (path, (rc, out, err)) in enumerate(zip(paths, ex.map(lambda p: coqc_file(p, timeout), paths))):
             if rc != 0:
                 errors.append((path, err[-3000:]))
             else:
-                pairs += parse_pairs(out)
+                got = parse_pairs(out)
+                if len(got) != len(shards[k]):
+                    # never lose a result silently: the printer's output was not read back completely
+                    errors.append((path, "read back %d of %d results from Coq's output" % (len(got), len(shards[k]))))
+                pairs += got
     for path in paths:
         if not errors:
             for ext in (".v", ".vo", ".vok", ".vos", ".glob"):
